@@ -189,7 +189,14 @@ func busForced(r *vk.Run) {
 		if s.AddNew {
 			ctx, cancel := context.WithCancel(context.Background())
 			extra = &busListener{ctx: ctx, cancel: cancel}
-			extra.ch = bus.Listen(ctx)
+			// registering must not wait for the send in progress (the sender is parked outside every bus lock)
+			tl := vk.Go(func() { extra.ch = bus.Listen(ctx) })
+			vk.Quiesce()
+			if !tl.Done() {
+				r.Violation("C10/stall/listen-during-send/"+key, fmt.Sprintf("%+v: Listen has not returned at the quiescent point while a Send is held up in the middle of its deliveries: a new subscriber waits for the slowest listener of the send in progress\n%s", s, vk.DescribeGs(vk.LibraryGoroutines(vk.Goroutines(), base))), s)
+				park.Release()
+			}
+			tl.Wait()
 			extra.consume()
 		}
 		vk.Quiesce()
@@ -269,7 +276,7 @@ func count(ss []string, x string) int {
 }
 
 func busStress(r *vk.Run) {
-	n := r.Pick(600, 200000)
+	n := r.Pick(8000, 200000)
 	sched := vk.NewSched()
 	defer sched.Close()
 	for i := 0; i < n; i++ {
@@ -750,6 +757,23 @@ func resStress(r *vk.Run) {
 					}
 				}
 			}))
+		}
+		// the subscriber tasks only subscribe and cancel: none of that may wait for a writer or a slow subscriber, so
+		// at a quiescent point (writers may legitimately be waiting for a stopped backpressured consumer) all are done
+		stuck := false
+		if gs, ok := r.MustQuiesce("c10-stress-tasks"); ok {
+			for _, t := range tasks {
+				if !t.Done() {
+					stuck = true
+				}
+			}
+			if stuck {
+				sort.Strings(opts)
+				r.Violation("C10/stall/subscribe-or-cancel/stress/"+kind, fmt.Sprintf("stress case %d: %d writers, subscribers %v: a goroutine that only subscribes and cancels has not finished at the quiescent point\n%s", i, nw, opts, vk.DescribeGs(vk.LibraryGoroutines(gs, base))), map[string]any{"case": i})
+				return // the stuck goroutines stay: later quiescence checks of this worker would be disturbed
+			}
+		} else {
+			return
 		}
 		for _, t := range tasks {
 			t.Wait()
